@@ -406,7 +406,11 @@ def reset_class_state():
         c = ci.cls
         c._buffer.clear()
         c._buffered_collections.clear()
-        c._CURRENT_BUFFER_SIZE = 0
+        # reset the counter WHERE the library keeps it (never create a per-class one ourselves)
+        for k in c.__mro__:
+            if "_CURRENT_BUFFER_SIZE" in k.__dict__:
+                k._CURRENT_BUFFER_SIZE = 0
+                break
         if "_BUFFER_CAPACITY" in c.__dict__:
             del c._BUFFER_CAPACITY
         ctx = c._buffer_context
